@@ -299,8 +299,8 @@ func (r *run) exec(sc Scenario, w *rec.Writer) error {
 		}
 	}
 	// a cut is a fault only if that many bytes are written in its direction at all
-	if sc.Fault == "cutAB" || sc.Fault == "cutBA" {
-		from := sc.Fault[3:4]
+	if sc.Fault == "cutAB" || sc.Fault == "cutBA" || sc.Fault == "halfAB" || sc.Fault == "halfBA" {
+		from := sc.Fault[len(sc.Fault)-2 : len(sc.Fault)-1]
 		bytes := 0
 		for _, wr := range sc.Writers {
 			if wr.End == from {
@@ -354,6 +354,10 @@ func (r *run) exec(sc Scenario, w *rec.Writer) error {
 		cutA.CutAfterWrite(int64(sc.At))
 	case "cutBA":
 		cutB.CutAfterWrite(int64(sc.At))
+	case "halfAB": // writes of end A start failing inside a frame; nothing is closed by the fault itself
+		cutA.FailWritesAfter(int64(sc.At))
+	case "halfBA":
+		cutB.FailWritesAfter(int64(sc.At))
 	}
 	vhook.Set(r.hook)
 	defer vhook.Set(nil)
